@@ -86,6 +86,8 @@ class ProgGen:
         # typed=True keeps booleans out of arithmetic (va, vb numeric; vc, vd boolean) so finding F14 cannot interfere
         self.typed = typed
         self.late_defs = False
+        self.expr_stmts = False
+        self.shadow_params = False
         self.boolvars = {'vc', 'vd'} if typed else set()
         self.r = rnd
         self.maxdepth = maxdepth
@@ -176,6 +178,15 @@ class ProgGen:
                 return [['assign', tgt, self.boolexpr(scope) if tgt in self.boolvars else self.num(scope)]]
             return [['assign', r.choice(self.vars), self.num(scope) if r.random() < 0.7 else self.expr(scope)]]
         if x < 0.36:
+            if self.expr_stmts and x < 0.27:
+                # a statement that is only an expression: a call of a script function / the probe (kept), or a bare variable
+                if self.funcs and r.random() < 0.7:
+                    f = r.choice(self.funcs)
+                    return [['expr', C(f[0], *[(self.num if self.typed else self.expr)(scope, 2) for _ in range(r.randint(0, f[1] + 1))])]]
+                if self.probes and r.random() < 0.6:
+                    self.tag += 1
+                    return [['expr', C('hp', S(f's{self.tag}'), self.num(scope, 1))]]
+                return [['expr', V(r.choice(scope))]]
             return [self.log(scope)]
         if x < 0.56:
             nb = r.randint(1, 3)
@@ -233,6 +244,10 @@ class ProgGen:
         r = self.r
         np_ = r.randint(0, 3)
         params = [f'p{j}' for j in range(np_)]
+        if self.shadow_params and np_ and r.random() < 0.3:
+            # parameters named like globals: inside the body the parameter wins, an omitted one is null (never the global's value)
+            params = r.sample(self.vars, min(np_, len(self.vars)))
+            np_ = len(params)
         name = f'fn{i}'
         body = self.block(self.vars + params, 1, False, True, n=r.randint(1, 4))
         if r.random() < 0.5:
@@ -281,6 +296,59 @@ class ProgGen:
                 self.features.add('redefinition')
         prog.append(self.log(self.vars))
         return prog
+
+
+KEYWORD_FUNCS = ['returnValue', 'returns', 'iffy', 'ifx', 'elifx', 'elsewhere', 'endifx', 'whilex', 'endwhile2', 'forx', 'endforx', 'breaker', 'continued', 'functionx',
+                 'endfunctionx', 'jumper', 'jumpifx', 'includes', 'inx', 'asyncfn', 'return_', 'for_', 'if_', 'while_', 'break_', 'continue_', 'else_', 'include_',
+                 'function_', 'jump_', 'endif_', 'elif2', 'returnfn0', 'jumpif_']
+KEYWORD_VARS = ['returned', 'ifs', 'fori', 'ins', 'whiles', 'breaks', 'elses', 'continues', 'jumps', 'included', 'endifs', 'functions', 'return1', 'if0', 'in_', 'break2']
+
+
+def keyword_renaming(rnd, prog, names):
+    """Map the function names defined in prog and the given variable names to identifiers that START with a keyword."""
+    fnames = []
+    def walk(stmts):
+        for st in stmts:
+            if st[0] == 'func':
+                if st[1] not in fnames:
+                    fnames.append(st[1])
+                walk(st[4])
+            elif st[0] == 'if':
+                for _, b in st[1]:
+                    walk(b)
+                if st[2] is not None:
+                    walk(st[2])
+            elif st[0] == 'while':
+                walk(st[2])
+            elif st[0] == 'for':
+                walk(st[4])
+    walk(prog)
+    mapping = dict(zip(fnames, rnd.sample(KEYWORD_FUNCS, len(fnames))))
+    mapping.update(zip(names, rnd.sample(KEYWORD_VARS, len(names))))
+    return mapping
+
+
+def rename(node, mapping):
+    """The same program / expression with identifiers renamed (variables, call names, assignment targets, parameters)."""
+    if isinstance(node, dict):
+        if 'variable' in node:
+            return {'variable': mapping.get(node['variable'], node['variable'])}
+        if 'function' in node:
+            f = node['function']
+            return {'function': {'name': mapping.get(f['name'], f['name']), 'args': [rename(a, mapping) for a in f['args']]}}
+        return {k: rename(v, mapping) for k, v in node.items()}
+    if isinstance(node, list):
+        if node and isinstance(node[0], str):
+            t = node[0]
+            if t == 'assign':
+                return ['assign', mapping.get(node[1], node[1]), rename(node[2], mapping)]
+            if t == 'func':
+                return ['func', mapping.get(node[1], node[1]), [mapping.get(a, a) for a in node[2]], node[3], rename(node[4], mapping)]
+            if t == 'for':
+                return ['for', mapping.get(node[1], node[1]), mapping.get(node[2], node[2]) if node[2] else node[2], rename(node[3], mapping), rename(node[4], mapping)]
+            return [t] + [rename(x, mapping) for x in node[1:]]
+        return [rename(x, mapping) for x in node]
+    return node
 
 
 def fix_while_continue(prog, allow):
